@@ -46,21 +46,6 @@ def ptree (g : TGraph) (flat cull : Bool) : Nat → Nat → PElem
     | some e => .mk e.type e.name (if !cull || isRoot g flat i then some e.uuid else none)
         (e.attrs.map (pattr g flat (ptree g flat cull fuel)))
 
-/-- the elements written inline inside element `e`. -/
-def inlineKids (g : TGraph) (flat : Bool) (e : TElem) : List Nat :=
-  e.attrs.flatMap fun a => a.vals.filterMap fun v =>
-    match v with
-    | .ref (.idx j) => if isRoot g flat j then none else some j
-    | _ => none
-
-/-- the nesting below element `i` is exhausted within `fuel` levels (decidable). -/
-def nestOK (g : TGraph) (flat : Bool) : Nat → Nat → Bool
-  | 0, _ => false
-  | fuel + 1, i =>
-    match g.elems[i]? with
-    | none => false
-    | some e => (inlineKids g flat e).all (nestOK g flat fuel)
-
 section
 variable {E : Tok.Tables} (hE : escOK E = true) (F : LexFacts E) (o : Opts) (ho : o.allowEscapes = true)
   (hb : o.stringBracket = false) (fold : Char → List Char) {T : Tables} (P : PlainFacts E T)
@@ -204,15 +189,6 @@ theorem lex_items (ia : Str) (hia : C01.isWs ia) (t : VT) (vals : List TVal)
 end pieces
 
 /-! ## attributes and elements -/
-
-/-- shape conditions of the graph that lexing needs (decidable). -/
-def lexWf (g : TGraph) : Bool :=
-  g.elems.all fun e => uuidOK e.uuid && e.attrs.all fun a =>
-    (a.isArray || a.vals.length == 1) && a.vals.all fun v =>
-      match v with
-      | .ref (.stub u) => uuidOK u
-      | .ref (.idx j) => decide (j < g.elems.length)
-      | _ => true
 
 theorem uuidAt_ok {g : TGraph} (hg : lexWf g = true) {j : Nat} (hj : j < g.elems.length) :
     uuidOK (uuidAt g j) = true := by
